@@ -225,6 +225,12 @@ func (e *Engine) VerifyProps(props []string, only map[string]bool, opts runOpts,
 		if verbose {
 			fmt.Fprintf(os.Stderr, "gen %-50s paths=%-6d obls=%-5d %.2fs\n", u.name, u.paths, len(u.obls), time.Since(t).Seconds())
 		}
+		// a callsite clause whose callee is never called would hold vacuously: report it
+		for _, cs := range u.contract.CallSites {
+			if !cs.Matched {
+				u.fail(fmt.Sprintf("%s: callsite clause %q: no call of %s in this function (name the callee as the engine prints it, e.g. (*T).method)", cs.Clause.Where, cs.Clause.Src, cs.Callee))
+			}
+		}
 		// must-fail canary: "ensures false" at function exit must be refutable, i.e. some return is reachable
 		rep.Units = append(rep.Units, u)
 		rep.Obligations = append(rep.Obligations, u.obls...)
